@@ -62,13 +62,13 @@ LEAF = ["a", "b", "size", "energy", "flag", "name", "n", "t0", "w.x"]
 
 GRID = {
     "float": ["0", "-0.0", "0.0", "1", "-1", "70", "2.2", "1e20", "-2.5e-7", "123456789.125", "+1.0", ".5", "1E-3", "100"],
-    "int": ["0", "1", "-1", "+0", "34", "-34", "1099511627776", "100", "3000", "-200"],
+    "int": ["0", "1", "-1", "+0", "34", "-34", "1099511627776", "100", "3000", "-200", "007", "-0012", "010", "+00"],
     "bool": ["true", "false", "false"],
     "str": ["''", '""', "x", "false", "0", "'a b'", '"x # y"', "none-such", "'0.0'"],
 }
 
 
-CUSTOM_UNIT_DEFS = ["$unit len = 2.5 m", "$unit len = 4 cm", "$unit len = 0.5 km", "$unit len = 10 s", "$unit len = 3 kg"]
+CUSTOM_UNIT_DEFS = ["$unit len = 2.5 m", "$unit len = 4 cm", "$unit len = 0.5 km", "$unit len = 2.54 mm", "$unit len = 10 s", "$unit len = 8 h", "$unit len = 3 kg"]
 CUR = {"preamble": H.UNIT_PREAMBLE}
 
 
